@@ -1363,6 +1363,60 @@ fn self_check() {
     }
 }
 
+// ---- RetryInfo delays around every boundary of the protobuf Duration range ---------------------
+
+fn retry_body(d: &(u64, u32), _ch: &Chooser) -> Outcome {
+    use tonic_types::{ErrorDetail, ErrorDetails, RetryInfo, StatusExt};
+    let delay = Duration::new(d.0, d.1);
+    let mut o = Outcome::new("");
+    let mut seen = vec![];
+    for via_vec in [false, true] {
+        let st = if via_vec {
+            tonic::Status::with_error_details_vec(tonic::Code::Unavailable, "retry", vec![RetryInfo::new(Some(delay)).into()])
+        } else {
+            tonic::Status::with_error_details(tonic::Code::Unavailable, "retry", ErrorDetails::with_retry_info(Some(delay)))
+        };
+        let mut h = http::HeaderMap::new();
+        if st.add_header(&mut h).is_err() {
+            o.violate("retry-add-header", "add_header failed");
+            continue;
+        }
+        let Some(back) = tonic::Status::from_header_map(&h) else {
+            o.violate("retry-from-header-map", "no status read back");
+            continue;
+        };
+        let got = if via_vec {
+            back.get_error_details_vec().into_iter().find_map(|e| match e {
+                ErrorDetail::RetryInfo(r) => Some(r.retry_delay),
+                _ => None,
+            })
+        } else {
+            back.get_details_retry_info().map(|r| r.retry_delay)
+        };
+        seen.push(format!("{got:?}"));
+        if got != Some(Some(delay)) {
+            o.violate(
+                if via_vec { "retry-delay-changed:vec" } else { "retry-delay-changed:set" },
+                format!("RetryInfo delay {delay:?} came back as {got:?} after the header round trip"),
+            );
+        }
+    }
+    o.obs = format!("{delay:?} -> {seen:?}");
+    o.nontrivial = d.0 > 0 || d.1 > 0;
+    o
+}
+
+fn retry_cases() -> Vec<(u64, u32)> {
+    let mut out = vec![];
+    // the protobuf Duration range ends at 315 576 000 000 s (+ 999 999 999 ns)
+    for s in [0u64, 1, 59, 60, 3600, u32::MAX as u64, u32::MAX as u64 + 1, 315_575_999_999, 315_576_000_000] {
+        for n in [0u32, 1, 999, 1_000, 500_000_000, 999_999_998, 999_999_999] {
+            out.push((s, n));
+        }
+    }
+    out
+}
+
 pub fn property(tier: Tier) -> Property {
     self_check();
     let cfg = Config { max_bound: 0, panic_key: "panic", hang_secs: 60, ..Default::default() };
@@ -1386,6 +1440,15 @@ pub fn property(tier: Tier) -> Property {
     )
     .mins(8000, 1000, 1000);
 
+    let retry = Section::new(
+        "retry-delay",
+        Config::default(),
+        "cases: RetryInfo delays at every boundary of the protobuf Duration range: seconds in {0,1,59,60,3600,2^32-1,2^32,315575999999,315576000000} x nanos in {0,1,999,1000,5e8,999999998,999999999}, attached through the set API and the list API, through add_header/from_header_map; the recovered delay must be equal. Non-trivial = non-zero delay.",
+        retry_cases(),
+        |d: &(u64, u32)| format!("{}s+{}ns", d.0, d.1),
+        retry_body,
+    )
+    .mins(50, 20, 50);
     let dec = Section::new(
         "decode",
         cfg,
@@ -1407,7 +1470,7 @@ pub fn property(tier: Tier) -> Property {
             "for mutated blobs that are still well-formed protobuf the decoded values are recorded, not judged".into(),
             "prost is the decoder under test; the reference reader/writer is written by hand from the .proto files".into(),
         ],
-        sections: vec![set, vecs, dec],
+        sections: vec![set, vecs, dec, retry],
         extra: Default::default(),
     }
 }
